@@ -421,6 +421,15 @@ func (vm *VirtualMachine) eval(ctx context.Context) error {
 					return err
 				}
 				vm.push(attr)
+			case *object.Error:
+				// An object reports a failed attribute access this way (a Go
+				// field that has no script value): it is the failure of the
+				// access, not its value. An error that is a value (the
+				// attribute of a module, an item of a map) is not raised
+				if value.IsRaised() {
+					return value.Value()
+				}
+				vm.push(value)
 			default:
 				vm.push(value)
 			}
